@@ -39,7 +39,6 @@ def pyEq (a b : Val) : Bool :=
   | _, _ => match a, b with
     | .none, .none => true
     | .str x, .str y => x == y
-    | .elem x, .elem y => x == y
     | _, _ => false
 
 /-- `a < b`; ordering between unlike types is a TypeError -/
@@ -282,6 +281,28 @@ def httpPartsLoop (required forbidden : List (Str × PartRule)) :
         if forbFail then fail "forbidden_part"
         else httpPartsLoop required forbidden names vs
 
+/-- `len(element.value) if element.value is not None else 0` -/
+def lenOrZero : Option Nat → Int
+  | some n => n
+  | none => 0
+
+/-- `a <= x <= b` / `a < x < b`: the second comparison is evaluated only if the first holds -/
+def chained (first second : Except Raise Bool) : Except Raise Bool :=
+  match first with
+  | .error r => .error r
+  | .ok true => second
+  | .ok false => .ok false
+
+/-- `[element.find(name, single=True) for name in self.field_paths]` with the lookups already
+    done by the harness: a path that does not resolve is a LookupError -/
+def resolveFields : List (Option FieldView) → Except Raise (List FieldView)
+  | [] => .ok []
+  | none :: _ => .error .lookupError
+  | some f :: rest =>
+    match resolveFields rest with
+    | .ok l => .ok (f :: l)
+    | .error r => .error r
+
 /-! ### `validate(element, state)` of every class -/
 
 def labelsJoin : List Val → Except Raise Str
@@ -319,21 +340,19 @@ def verdict (v : V) (e : View) : Except Raise Verdict :=
   | .valueBetween minimum maximum inclusive =>
     if inclusive then
       if e.value == .none then fail "failure_inclusive"
-      else do
-        -- `minimum <= value <= maximum`: the second comparison only if the first holds
-        let a ← pyLe minimum e.value
-        let ok ← if a then pyLe e.value maximum else pure false
-        if !ok then fail "failure_inclusive" else pass
+      else
+        -- `not minimum <= value <= maximum`
+        match chained (pyLe minimum e.value) (pyLe e.value maximum) with
+        | .error r => .error r
+        | .ok ok => if !ok then fail "failure_inclusive" else pass
     else
       if e.value == .none then fail "failure_exclusive"
-      else do
-        let a ← pyLt minimum e.value
-        let ok ← if a then pyLt e.value maximum else pure false
-        if !ok then fail "failure_exclusive" else pass
+      else
+        match chained (pyLt minimum e.value) (pyLt e.value maximum) with
+        | .error r => .error r
+        | .ok ok => if !ok then fail "failure_exclusive" else pass
   | .mapEqual k => do
-    let elements ← e.fields.mapM (fun f => match f with
-      | some f => .ok f
-      | none => .error .lookupError)
+    let elements ← resolveFields e.fields
     match elements with
     | [] => .error .assertionError
     | first :: rest =>
@@ -373,7 +392,7 @@ def verdict (v : V) (e : View) : Except Raise Verdict :=
   | .hasBetween minimum maximum =>
     if !e.isSequence then .error .assertionError
     else
-      let length : Int := match e.valueLen with | some n => n | none => 0
+      let length : Int := lenOrZero e.valueLen
       if minimum ≤ length && length ≤ maximum then pass
       else fail (if minimum == maximum then "exact" else "range")
              [("child_label".toList, e.childLabel)]
